@@ -462,33 +462,72 @@ func c09(c *Ctx) {
 				continue
 			}
 			val := ast.Unparen(call.Args[1])
-			kind := ""
-			if ap, ok := val.(*ast.CallExpr); ok && astx.Builtin(info, ap) == "append" && len(ap.Args) >= 2 {
-				if cl, ok := ast.Unparen(ap.Args[0]).(*ast.CompositeLit); ok && len(cl.Elts) == 1 {
-					if k, ok := astx.ConstInt(info, cl.Elts[0]); ok {
-						if k == 'p' {
-							kind = "p"
-						} else {
-							kind = "marker " + strconvQuote(string(rune(k)))
+			// the stored value is append([]byte{'p'}, <bytes>...) or the result of json.Marshal — directly, or through
+			// variables all of whose definitions are of these kinds (a nil stored on an error path is judged by L5: the error
+			// is returned before the Put)
+			seenObj := map[types.Object]bool{}
+			var classify func(e ast.Expr, depth int) []string
+			classify = func(e ast.Expr, depth int) []string {
+				e = ast.Unparen(e)
+				if depth > 4 || e == nil {
+					return []string{"value of unknown origin"}
+				}
+				if ap, ok := e.(*ast.CallExpr); ok && astx.Builtin(info, ap) == "append" && len(ap.Args) >= 2 {
+					if cl, ok := ast.Unparen(ap.Args[0]).(*ast.CompositeLit); ok && len(cl.Elts) == 1 {
+						if k, ok := astx.ConstInt(info, cl.Elts[0]); ok {
+							if k == 'p' {
+								return []string{"p"}
+							}
+							return []string{"marker " + strconvQuote(string(rune(k)))}
 						}
 					}
+					return []string{"value of unknown origin"}
 				}
-			} else if id, ok := val.(*ast.Ident); ok {
-				kind = "json"
-				for _, d := range defsOf(info, fi.Node(), astx.Obj(info, id)) {
-					if d == nil {
-						continue
+				if dc, ok := e.(*ast.CallExpr); ok {
+					if fn := astx.Callee(info, dc); fn != nil && fn.Name() == "Marshal" && fn.Pkg() != nil && fn.Pkg().Path() == "encoding/json" {
+						return []string{"json"}
 					}
-					dc, isCall := ast.Unparen(d).(*ast.CallExpr)
-					if !isCall {
-						kind = "value of unknown origin"
-						continue
-					}
-					if fn := astx.Callee(info, dc); fn == nil || fn.Name() != "Marshal" || fn.Pkg() == nil || fn.Pkg().Path() != "encoding/json" {
-						kind = "value of unknown origin"
-					}
+					return []string{"value of unknown origin"}
 				}
-			} else {
+				if id, ok := e.(*ast.Ident); ok {
+					if id.Name == "nil" {
+						return []string{"nil"}
+					}
+					obj := astx.Obj(info, id)
+					if obj == nil || seenObj[obj] {
+						return nil
+					}
+					seenObj[obj] = true
+					var out []string
+					for _, d := range defsOf(info, fi.Node(), obj) {
+						if d == nil {
+							continue
+						}
+						out = append(out, classify(d, depth+1)...)
+					}
+					if len(out) == 0 {
+						return []string{"value of unknown origin"}
+					}
+					return out
+				}
+				return []string{"value of unknown origin"}
+			}
+			kind, badKind := "", ""
+			for _, k := range classify(val, 0) {
+				switch k {
+				case "nil":
+				case "p", "json":
+					if kind == "" || kind == "json" {
+						kind = k
+					}
+				default:
+					badKind = k
+				}
+			}
+			if badKind != "" {
+				kind = badKind
+			}
+			if kind == "" {
 				kind = "value of unknown origin"
 			}
 			r.Check(kind == "p" || kind == "json", "C09.L2", fi.Name(), "what is stored is 'p' + protobuf or bare JSON", c.P.Pos(call.Pos()), "encoding: "+kind,
@@ -527,17 +566,37 @@ func c09(c *Ctx) {
 				ok = true
 			}
 			if id, isID := res.(*ast.Ident); isID && !ok {
-				defs := defsOf(info, fi.Node(), astx.Obj(info, id))
-				ok = len(defs) > 0
-				for _, d := range defs {
-					if d == nil {
-						continue
+				// every definition of the returned variable — through error variables it was copied from — is nil, the
+				// encoder's result or the database's
+				seenObj := map[types.Object]bool{}
+				var fromOK func(o types.Object, depth int) bool
+				fromOK = func(o types.Object, depth int) bool {
+					if o == nil || depth > 4 {
+						return false
 					}
-					call, isCall := ast.Unparen(d).(*ast.CallExpr)
-					if !isCall || !okCallee(call) {
-						ok = false
+					if seenObj[o] {
+						return true
 					}
+					seenObj[o] = true
+					defs := defsOf(info, fi.Node(), o)
+					if len(defs) == 0 {
+						return false
+					}
+					for _, d := range defs {
+						if d == nil || isNilIdent(info, d) {
+							continue
+						}
+						if call, isCall := ast.Unparen(d).(*ast.CallExpr); isCall && okCallee(call) {
+							continue
+						}
+						if did, isIdent := ast.Unparen(d).(*ast.Ident); isIdent && fromOK(astx.Obj(info, did), depth+1) {
+							continue
+						}
+						return false
+					}
+					return true
 				}
+				ok = fromOK(astx.Obj(info, id), 0)
 			}
 			r.Check(ok, "C09.L2", fi.Name(), "an entry is refused only when encoding or the database fails", c.P.Pos(rs.Pos()), "error result is nil, the encoder's or the database's",
 				"the store returns an error of its own making (a validation of indexes, sizes or types): raft hands it entries whose indexes need not continue the stored ones (after a snapshot was installed, after a truncation), so a follower rejects every further entry and silently stops receiving acknowledged messages")
@@ -1084,7 +1143,36 @@ func (c *Ctx) c09Convert(fi *load.FuncInfo) {
 					}
 				}
 				if reaches && marshalOf(g.V[d].Node, "RaftLog") == nil {
-					okVal, why = false, "a definition at "+c.P.Pos(g.V[d].Node.Pos())+" that is not the envelope encoding reaches the Put"
+					// … or the marker prepended to a variable every definition of which is that encoding (a shared
+					// marshal helper expanded here); the nil of the helper's error path never reaches the Put (L5)
+					viaVar := false
+					if as, ok := g.V[d].Node.(*ast.AssignStmt); ok && len(as.Lhs) == len(as.Rhs) {
+						for i, l := range as.Lhs {
+							id, ok := l.(*ast.Ident)
+							if !ok || astx.Obj(info, id) != obj {
+								continue
+							}
+							rhs := ast.Unparen(as.Rhs[i])
+							if isNilIdent(info, rhs) {
+								viaVar = true
+							}
+							if ap, ok := rhs.(*ast.CallExpr); ok && astx.Builtin(info, ap) == "append" && len(ap.Args) == 2 && ap.Ellipsis.IsValid() {
+								if xid, ok := ast.Unparen(ap.Args[1]).(*ast.Ident); ok {
+									xdefs := defsOf(info, fi.Node(), astx.Obj(info, xid))
+									all := len(xdefs) > 0
+									for _, xd := range xdefs {
+										if xd == nil || marshalOf(xd, "RaftLog") == nil {
+											all = false
+										}
+									}
+									viaVar = viaVar || all
+								}
+							}
+						}
+					}
+					if !viaVar {
+						okVal, why = false, "a definition at "+c.P.Pos(g.V[d].Node.Pos())+" that is not the envelope encoding reaches the Put"
+					}
 				}
 			}
 		}
